@@ -165,6 +165,129 @@ def rule_normalize_guard(ctx, chk, rule='ambiguity-guard'):
                 chk.ok(rule, key + ':' + suf, i.loc, 'guard follows dot-segment removal on every success path', func=f.name)
 
 
+class TailHooks(Hooks):
+    """a fresh, terminated node that is linked behind another node is the last node: pathTail must name it"""
+
+    def __init__(self, f, success_nonzero, prog):
+        self.f = f
+        self.bad = []
+        self.success_nonzero = success_nonzero
+        self.prog = prog
+        self.n = 0
+
+    def instr(self, b, idx, i, facts):
+        from ..ir import manager_call, is_tmp
+        if i.op == 'call':
+            mc = manager_call(i)
+            if mc and mc[0] in ('malloc', 'calloc') and i.dst is not None:
+                facts = frozenset(x for x in facts if x[1] != i.dst.v)
+                return facts | {('alloc', i.dst.v, mc[0])}
+            return facts
+        if i.op != 'assign':
+            return facts
+        d = strip_casts(i.dst)
+        s = strip_casts(i.src)
+        if d.k == 'ref':
+            v = d.v
+            import re
+            pat = re.compile(r'(?<![A-Za-z0-9_])%s(?![A-Za-z0-9_])' % re.escape(v))
+            facts = frozenset(x for x in facts if x[1] != v and not (x[0] in ('eq', 'null') and
+                                                                    (pat.search(str(x[1])) or pat.search(str(x[2])))))
+            cv = const_value(i.src, self.prog)
+            if cv is not None:
+                # flag locals such as `removeSegment`: remembered so that the branches they decide are not both taken
+                if cv == 0 and '*' in (d.ty or ''):
+                    return facts | {('null', v, None)}
+                return facts | {('cv', v, cv)}
+            if s is not None and '*' in (d.ty or ''):
+                sk = expr_key(s)
+                if not pat.search(sk):
+                    facts = facts | {('eq', v, sk)}
+                    if ('null', sk, None) in facts:
+                        facts = facts | {('null', v, None)}
+            if s is not None and s.k == 'ref':
+                al = [x for x in facts if x[0] == 'alloc' and x[1] == s.v]
+                if al and 'PathSegment' in (d.ty or ''):
+                    self.n += 1
+                    facts = facts | {('fresh', v, None)}
+                    if al[0][2] == 'calloc':
+                        facts = facts | {('term', v, None)}
+            return facts
+        if d.k == 'member' and d.v == 'next':
+            base = strip_casts(d.c[0])
+            if base.k == 'ref' and ('fresh', base.v, None) in facts:
+                if const_value(i.src, self.prog) == 0:
+                    return facts | {('term', base.v, None)}
+                return facts - {('term', base.v, None)}
+            if s is not None and s.k == 'ref' and ('fresh', s.v, None) in facts:
+                return facts | {('linked', s.v, None)}
+            return facts
+        if d.k == 'member' and d.v == 'pathTail':
+            if s is not None and s.k == 'ref' and ('fresh', s.v, None) in facts:
+                return facts | {('tail', s.v, None)}
+            # tail moved elsewhere: earlier claims are void
+            return frozenset(x for x in facts if x[0] != 'tail')
+        return facts
+
+    def edge(self, b, cond, truth, facts):
+        from ..failclean import zero_test
+        zt = zero_test(cond, self.prog)
+        if zt is not None:
+            var, zero_when_true = zt
+            for x in facts:
+                if x[0] == 'cv' and x[1] == var:
+                    is_zero = (x[2] == 0)
+                    if (is_zero == zero_when_true) != truth:
+                        return None
+        from ..cfgutil import null_test
+        nt = null_test(cond)
+        if nt is not None:
+            e, null_when_true = nt
+            k = expr_key(e)
+            is_null = (null_when_true == truth)
+            known = ('null', k, None) in facts
+            if known and not is_null:
+                return None
+            if is_null:
+                add = {('null', k, None)}
+                for x in facts:
+                    if x[0] == 'eq' and x[2] == k:
+                        add.add(('null', x[1], None))
+                    if x[0] == 'eq' and x[1] == k:
+                        add.add(('null', x[2], None))
+                facts = facts | add
+        return facts
+
+    def ret(self, b, term, facts):
+        v = const_value(term[1], self.prog) if term[1] is not None else None
+        if v is not None and ((v != 0) != self.success_nonzero):
+            return
+        for x in facts:
+            if x[0] == 'linked' and ('term', x[1], None) in facts and ('tail', x[1], None) not in facts:
+                self.bad.append((term[2], x[1]))
+
+
+def rule_fresh_tail(ctx, chk, funcs, rule='list-tail'):
+    n = 0
+    for name in sorted(funcs):
+        f = ctx.irp.funcs[name]
+        if not any('PathSegment' in (t or '') for t in f.locals.values()):
+            continue
+        h = TailHooks(f, success_nonzero=(f.ret_type or '').strip() == 'UriBool', prog=ctx.prog)
+        explore(f, h, limit=60000)
+        if not h.n:
+            continue
+        n += 1
+        if h.bad:
+            loc, var = h.bad[0]
+            chk.bad(rule, 'fresh-tail:%s:%s' % (base_name(name), var), loc, '%s can return successfully with the fresh, terminated node '
+                    '`%s` linked behind another node while pathTail does not name it: the tail is no longer the last node'
+                    % (name, var), func=name)
+        else:
+            chk.ok(rule, 'fresh-tail:%s' % name, f.loc, 'every fresh terminated node linked at the end becomes pathTail', func=name)
+    return n
+
+
 def contract_append_segment(ctx, suf):
     f = RR.fn(ctx, 'uriAppendSegment', suf)
     u = f.params[0]
@@ -228,5 +351,6 @@ def run(ctx, chk):
     # the release function is shared by every producer; the parser's own rule functions are C02's business
     funcs = set(n for n in funcs if n not in parser or base_name(n) in ('uriFreeUriMembersMm', 'uriResetUri', 'uriIsHostSet'))
     n = rule_pair_write(ctx, chk, funcs)
+    chk.analysed['list_building_functions'] = rule_fresh_tail(ctx, chk, funcs)
     chk.analysed['producer_functions'] = len(funcs)
     chk.analysed['range_writing_functions'] = n
